@@ -109,6 +109,11 @@ pub fn handle_watch(conn: &mut Connection, parts: &[RespFrame], storage: &Arc<St
             RespFrame::BulkString(Some(bytes)) => {
                 let key = bytes.as_ref().clone();
                 
+                // Watching a key again keeps the first baseline: a change seen since then still counts
+                if conn.transaction_state.watched_keys.contains_key(&(conn.db_index, key.clone())) {
+                    continue;
+                }
+                
                 // Register the watch with storage engine
                 match storage.register_watch(conn.db_index, &key) {
                     Ok(baseline_counter) => {
